@@ -131,6 +131,7 @@ func checkC06(c *Check) {
 	c06DeepCopyComplete(c, "R11")
 	c07RawLookupError(c, "R12")
 	c06RejectWins(c, "R13")
+	c06BodyBlockListNeverShrinks(c, "R14")
 
 	// ---- R2
 	c.Rule("R2", "no verdict is dropped: after an error of checkConnSender / checkRcpt / checkBody / applyResults the function neither reports success nor hands anything to a target", 8)
